@@ -41,6 +41,18 @@ CHECKS = {
    text="Every program of the C01 corpus up to 3 nodes (4 thorough) on three inputs, of the C03 binder corpus of depth 1 (a quarter of depth 2 thorough) and of a literal/format/infix corpus is rewritten by every applicable documented equivalence at every applicable position: seven layouts (blanks, newlines, tabs, three comment styles) at all token boundaries and at each boundary, redundant parentheses around every sub-program, every split point and escape spelling of string literals incl. raw strings and continuation, %s/%d/%x/%o/%b vs %( %), E? vs (E,), if vs (?(C) A, !(C) B), ?(E) vs ([E] != []), infix vs its ?(let..) expansion; and compiled with tree::simplify skipped. Both sides run on the engine and must give identical results or the same error.",
    note="No model: both sides of each equivalence are executions of the implementation; equivalences that reorder alternatives are compared as multisets per input.",
    tech="bounded exhaustive program x rewrite x position enumeration; differential execution on the implementation"),
+ "C09": dict(cat="model_checking", ref="DESIGN.md §3 C09",
+   text="A pool of ~120 distinct values of every documented type (integers in every arithmetic domain incl. positions and limits, booleans, slot-type constants, named constants of 20 DW_*/ELF families with equal and different numbers, byte strings with NUL and high bytes, nested and heterogeneous sequences, address sets, and DWARF values from three sample files: DIEs raw/cooked/through import routes, attributes, units, abbreviations and their attributes, location-list elements and operations, symbols and their label/binding/visibility constants) is built on the engine; for ALL ordered pairs the twelve comparison words and six infix forms are evaluated, giving a complete outcome matrix. Decided on the matrix: complementarity of ?w/!w, trichotomy, alias agreement, infix = word, converse, symmetry, copy equality, the documented orders, the element-wise law ([a] vs [b] orders like a vs b) and, over ALL triples, transitivity of < and == and compatibility of < with ==.",
+   note="Orders between different types / unrelated domains are only required to be consistent; closure type excluded as stated; one recorded finding (DIE import-path wildcard equality).",
+   tech="complete pairwise outcome matrix on the implementation; order axioms decided exhaustively over all pairs and triples"),
+ "C13": dict(cat="model_checking", ref="DESIGN.md §3 C13",
+   text="Runtime monitors on every execution of every check (ASan, UBSan fatal, asserts enabled, and the DWGREP_VERIF shadow map that aborts when an operator state is constructed twice, used before construction, destroyed twice, overlaps a live state in a union area or is still alive when the state area dies), plus own enumeration: every program of a corpus of stateful constructs and every Z_3 transformer up to 3 nodes abandoned after k pulls for every k; every rejected text of the token-string space; values outliving their query and result set. Leaks are decided exactly: live-heap delta per case from the allocator, confirmed by LeakSanitizer in a fresh process.",
+   note="One recorded finding (exception-path leaks of rejected queries); coverage-guided mutation is sampling and not used.",
+   tech="bounded exhaustive enumeration of abandonment points and rejected texts under sanitizers + life-cycle shadow-map hook with exact heap accounting"),
+ "C14": dict(cat="model_checking", ref="DESIGN.md §3 C14",
+   text="Exhaustive enumeration of query texts given with explicit length from an exact-size heap buffer: all token strings up to length 3 over a 43-token alphabet covering every lexer rule and start condition and up to length 4 over a 26-token core (4 and 5 in the thorough tier), joined with and without blanks (~1.2 M texts quick); all byte strings of length <= 2 over all 256 bytes and of length 3 over 40 bytes; integer literals over prefix x sign x digit-string classes; unterminated strings/splices/comments at nesting <= 3 and NUL bytes. Oracle at the C boundary: a query XOR (NULL, error, non-empty message); accepted queries are executed on [] and [1] with every pull checked (true, or false with error set); run-time failures at every pull index surface through zw_result_next; the CLI turns them into a stderr message and exit status 2.",
+   note="Accepted queries that diverge when executed (unbalanced closure bodies) are cut by a watchdog and counted, not judged.",
+   tech="bounded exhaustive enumeration of input texts on the implementation under sanitizers; API contract oracle"),
 }
 NOT_YET = "check under construction in this session; not claimed until it has run to completion on the unchanged tree"
 
